@@ -36,7 +36,7 @@ def acks_term(al):
 
 
 def run(ctx):
-    n = 96 if ctx.thorough() else 29
+    n = 98 if ctx.thorough() else 31
     proof_ok, detail = True, {}
     r = ctx.props()
     if not r["ok"]:
@@ -160,6 +160,10 @@ def run(ctx):
             # history class "recreateSubscription fails part-way" (CreateSubscription or CreateMonitoredItems refused while
             # recreating): monitor() ignores the error (`action = recreateSession; continue` only continues the range loop,
             # then `action = none`), reports Connected and does not count the subscription in activeSubs
+            # Republish was answered BadSubscriptionIDInvalid: the server no longer has the subscription, it must be recreated
+            republish_tried = p.get("session_lost", 0) == 0 or (p.get("transfer_failed", 0) == 0 and p.get("transfer_ok", 0) == 1)
+            if republish_tried and p.get("republish_ok", 0) == 0 and o.get("creates", 0) == 0:
+                report("expired-subscription-not-recreated", "Republish answered BadSubscriptionIDInvalid (the server has dropped the subscription) but the client did not recreate it: it holds %s and reports Connected" % o["subs"], o)
             recreate_failed = o.get("creates", 0) > 0 and (p.get("create_ok", 0) == 0 or p.get("items_ok", 0) == 0)
             if recreate_failed and (not alive or not resumed):
                 report("failed-recreate-connected", "recreateSubscription failed part-way (create_ok=%s items_ok=%s) and the client reports Connected: subscription %s, publishing resumed=%s" % (
